@@ -200,6 +200,11 @@ def gammas(run):
     for font, size in fs:
         for nrow in ((5,) if quick else (4, 6, 10)):
             out.append(({"strategy": "plain", "nrow": nrow, "header": "explicit", "footnote": "table", "font": font, "size": size}, 4 if quick else 5))
+    # per-column font sizes next to a removed group column (the estimate of a cell must use that cell's own size)
+    for strat in ("page_by", "subline"):
+        for ocs in ((5,) if quick else (5, 16)):
+            for nrow in ((5,) if quick else (4, 6, 10)):
+                out.append(({"strategy": strat, "L": 1, "nrow": nrow, "header": "explicit", "heights": [1, 2], "other_col_size": ocs}, 4 if quick else 5))
     # page_by
     for L in (1, 2, 3):
         for nrow in ((4, 6) if quick else (3, 4, 5, 6, 8, 12)):
